@@ -19,6 +19,7 @@ import (
 type qComp struct {
 	Type  byte   `json:"type"`
 	Value string `json:"value_hex"`
+	Bad   string `json:"ill_formed,omitempty"` // history steps only: a component value the serialiser has to refuse
 }
 
 type qFilter struct {
@@ -121,6 +122,16 @@ func bool2b(b bool) uint8 {
 // library values in the shape the parser yields ---------------------------------------------------------
 
 func libComp(cp qComp) nasType.PacketFilterComponent {
+	switch cp.Bad {
+	case "ipv6-remote-address":
+		return &nasType.PacketFilterIPv4RemoteAddress{Address: net.ParseIP("2001:db8::1"), Mask: net.IPMask{255, 255, 255, 0}}
+	case "short-local-mask":
+		return &nasType.PacketFilterIPv4LocalAddress{Address: net.IP{10, 0, 0, 1}, Mask: net.IPMask{255, 255}}
+	case "flow-label-too-large":
+		return &nasType.PacketFilterFlowLabel{Label: 1 << 20}
+	case "nil":
+		return nil
+	}
 	v := unhex(cp.Value)
 	u16 := func(i int) uint16 { return binary.BigEndian.Uint16(v[i:]) }
 	switch cp.Type {
@@ -266,8 +277,20 @@ func c15RulesExec(c *core.Ctx, in c15Rules) {
 	}
 	if !reflect.DeepEqual(normRules(back), normRules(orig)) {
 		fail("roundtrip", fmt.Sprintf("parse(serialise(l)) differs from l; wire %x; got %+v", clip(enc), back))
+		return
+	}
+	var hk, hw string
+	if pi := core.Try(func() {
+		hk, hw = marshalHygiene(func() binMarshaler { v := libRules(in.Rules); return &v }, &c15OtherRules, reflect.DeepEqual)
+	}); pi != nil {
+		fail(pi.Key(), "panics on a repeated serialisation: "+pi.Msg)
+	} else if hk != "" {
+		fail(hk, hw)
 	}
 }
+
+var c15OtherRules = libRules([]qRule{{ID: 9, Op: 1, Precedence: 200, QFI: 33, Filters: []qFilter{{ID: 3, Dir: 3, Comps: []qComp{{Type: 0x01}}}}}})
+var c15OtherDescs = libDescs([]qDesc{{QFI: 63, Op: 0x20, Params: []qParam{{ID: 1, Value: "55"}}}})
 
 func normRules(rs nasType.QoSRules) nasType.QoSRules {
 	out := make(nasType.QoSRules, len(rs))
@@ -337,6 +360,15 @@ func c15DescsExec(c *core.Ctx, in c15Descs) {
 	}
 	if !reflect.DeepEqual(normDescs(back), normDescs(orig)) {
 		fail("roundtrip", fmt.Sprintf("parse(serialise(l)) differs from l; wire %x; got %+v", clip(enc), back))
+		return
+	}
+	var hk, hw string
+	if pi := core.Try(func() {
+		hk, hw = marshalHygiene(func() binMarshaler { v := libDescs(in.Descs); return &v }, &c15OtherDescs, reflect.DeepEqual)
+	}); pi != nil {
+		fail(pi.Key(), "panics on a repeated serialisation: "+pi.Msg)
+	} else if hk != "" {
+		fail(hk, hw)
 	}
 }
 
@@ -408,6 +440,175 @@ func c15RawExec(c *core.Ctx, in c15Raw) {
 	}
 }
 
+// histories: calls that fail (or succeed) followed by a probe ----------------------------------------------
+
+type c15Step struct {
+	Op    string  `json:"op"` // marshal-rules | marshal-descs | parse-rules | parse-descs | parse-components
+	Rules []qRule `json:"rules,omitempty"`
+	Descs []qDesc `json:"descs,omitempty"`
+	Hex   string  `json:"hex,omitempty"`
+}
+
+type c15Hist struct {
+	Steps      []c15Step `json:"earlier_calls"`
+	ProbeRules []qRule   `json:"probe_rules"`
+	ProbeDescs []qDesc   `json:"probe_descs"`
+}
+
+// c15HistExec: what a serialiser or parser returns for a well-formed value does not depend on the calls made
+// before it in the process — in particular not on calls that ended in an error half-way through a list. The
+// earlier calls are not judged here (their own cases do that); only the probe is.
+func c15HistExec(c *core.Ctx, in c15Hist) {
+	c.Distinct(core.Hash64("hist", fmt.Sprint(in)), true)
+	first := "none"
+	if len(in.Steps) > 0 {
+		first = in.Steps[0].Op
+	}
+	fail := func(k, w string) { c.FailCase("history|after-"+first+"|"+k, w, "hist", in) }
+	for _, st := range in.Steps {
+		st := st
+		_ = core.Try(func() {
+			switch st.Op {
+			case "marshal-rules":
+				v := libRules(st.Rules)
+				_, _ = v.MarshalBinary()
+			case "marshal-descs":
+				v := libDescs(st.Descs)
+				_, _ = v.MarshalBinary()
+			case "parse-rules":
+				var r nasType.QoSRules
+				_ = r.UnmarshalBinary(unhex(st.Hex))
+			case "parse-descs":
+				var d nasType.QoSFlowDescs
+				_ = d.UnmarshalBinary(unhex(st.Hex))
+			case "parse-components":
+				var l nasType.PacketFilterComponentList
+				_ = l.UnmarshalBinary(unhex(st.Hex))
+			}
+		})
+	}
+	wantR, wantD := refRules(in.ProbeRules), refDescs(in.ProbeDescs)
+	var encR, encD []byte
+	var e1, e2, e3, e4 error
+	var backR nasType.QoSRules
+	var backD nasType.QoSFlowDescs
+	pi := core.Try(func() {
+		r, d := libRules(in.ProbeRules), libDescs(in.ProbeDescs)
+		encR, e1 = r.MarshalBinary()
+		encD, e2 = d.MarshalBinary()
+		e3 = backR.UnmarshalBinary(append([]byte{}, wantR...))
+		e4 = backD.UnmarshalBinary(append([]byte{}, wantD...))
+	})
+	if pi != nil {
+		fail(pi.Key(), "the probe panics after the earlier calls: "+pi.Msg)
+		return
+	}
+	if e1 != nil || e2 != nil || e3 != nil || e4 != nil {
+		fail("probe-error", fmt.Sprintf("after the earlier calls, serialising / parsing a well-formed list fails: %v %v %v %v", e1, e2, e3, e4))
+		return
+	}
+	if !bytes.Equal(encR, wantR) {
+		fail("rules-serialisation-depends-on-earlier-calls", fmt.Sprintf("after the earlier calls the rule list serialises to %x, its layout is %x", clip(encR), clip(wantR)))
+		return
+	}
+	if !bytes.Equal(encD, wantD) {
+		fail("descs-serialisation-depends-on-earlier-calls", fmt.Sprintf("after the earlier calls the description list serialises to %x, its layout is %x", clip(encD), clip(wantD)))
+		return
+	}
+	if !reflect.DeepEqual(normRules(backR), normRules(libRules(in.ProbeRules))) {
+		fail("rules-parse-depends-on-earlier-calls", fmt.Sprintf("after the earlier calls %x parses to %+v", clip(wantR), backR))
+		return
+	}
+	if !reflect.DeepEqual(normDescs(backD), normDescs(libDescs(in.ProbeDescs))) {
+		fail("descs-parse-depends-on-earlier-calls", fmt.Sprintf("after the earlier calls %x parses to %+v", clip(wantD), backD))
+	}
+}
+
+// c15Histories enumerates: every ill-formed component kind at every position of 1..3 components in filter 0 / 1 of a
+// rule; a nil parameter at every position of 1..3 parameters; every truncation and a 13-value replacement at every
+// position of the three valid wire forms; each alone and (serialiser failures) in ordered pairs; each against three
+// probes.
+func c15Histories(c *core.Ctx, corpus []c15Raw, mine func() bool) (n int64) {
+	good := []qComp{{Type: 0x30, Value: "11"}, {Type: 0x50, Value: "01bb"}, {Type: 0x10, Value: "0a000001ffffff00"}}
+	var fails []c15Step
+	for _, bad := range []string{"ipv6-remote-address", "short-local-mask", "flow-label-too-large", "nil"} {
+		for k := 1; k <= 3; k++ {
+			for p := 0; p < k; p++ {
+				cs := append([]qComp{}, good[:k]...)
+				cs[p] = qComp{Bad: bad}
+				for fi := 0; fi < 2; fi++ {
+					fs := []qFilter{{ID: 1, Dir: 3, Comps: good[:2]}, {ID: 2, Dir: 1, Comps: good[1:]}}
+					fs[fi].Comps = cs
+					fails = append(fails, c15Step{Op: "marshal-rules", Rules: []qRule{{ID: 1, Op: 1, Filters: fs, Precedence: 9, QFI: 5}}})
+				}
+			}
+		}
+	}
+	nDescFail := 0
+	for k := 1; k <= 3; k++ {
+		for p := 0; p < k; p++ {
+			ps := []qParam{{1, "09"}, {2, "060400"}, {7, "05"}}[:k]
+			ps = append([]qParam{}, ps...)
+			ps[p] = qParam{ID: 0xEE}
+			fails = append(fails, c15Step{Op: "marshal-descs", Descs: []qDesc{{QFI: 1, Op: 1, Params: ps}}})
+			nDescFail++
+		}
+	}
+	probes := []c15Hist{
+		{ProbeRules: []qRule{{ID: 3, Op: 1, Filters: []qFilter{{ID: 1, Dir: 1, Comps: []qComp{{Type: 0x50, Value: "01bb"}}}}, Precedence: 40, QFI: 7}},
+			ProbeDescs: []qDesc{{QFI: 7, Op: 1, Params: []qParam{{1, "09"}}}}},
+		{ProbeRules: []qRule{{ID: 1, Op: 1, DQR: true, Filters: []qFilter{{ID: 1, Dir: 3, Comps: []qComp{{Type: 0x01}}}}, Precedence: 255, QFI: 1}, {ID: 2, Op: 5, Filters: []qFilter{{ID: 1}}, Precedence: 1, QFI: 1}},
+			ProbeDescs: []qDesc{{QFI: 1, Op: 1}, {QFI: 2, Op: 3, Params: []qParam{{2, "060400"}, {3, "060400"}}}}},
+		{ProbeRules: []qRule{{ID: 4, Op: 3, Filters: []qFilter{{ID: 0, Dir: 2, Comps: good}, {ID: 1, Dir: 1, Comps: good[:1]}}, Precedence: 1, Seg: true, QFI: 63}},
+			ProbeDescs: []qDesc{{QFI: 63, Op: 1, Params: []qParam{{1, "09"}, {4, "060400"}, {5, "060400"}, {6, "0102"}, {7, "05"}}}}},
+	}
+	run := func(steps ...c15Step) {
+		for _, pr := range probes {
+			in := c15Hist{Steps: steps, ProbeRules: pr.ProbeRules, ProbeDescs: pr.ProbeDescs}
+			c15HistExec(c, in)
+			n++
+		}
+	}
+	for i, f := range fails {
+		if !mine() {
+			continue
+		}
+		if !c.Begin("hist", f.Op, f) {
+			continue
+		}
+		run(f)
+		for j, g := range fails {
+			if (i+j)%3 == 0 || c.Thorough() {
+				run(f, g)
+			}
+		}
+		// a successful call between the failure and the probe
+		run(f, c15Step{Op: "marshal-rules", Rules: probes[2].ProbeRules})
+	}
+	for _, seed := range corpus {
+		data := unhex(seed.Hex)
+		op := "parse-" + seed.Parser
+		for pos := 0; pos < len(data); pos++ {
+			if !mine() {
+				continue
+			}
+			if !c.Begin("hist", op, c15Step{Op: op, Hex: hexs(data[:pos])}) {
+				continue
+			}
+			run(c15Step{Op: op, Hex: hexs(data[:pos])})
+			for _, v := range []byte{0x00, 0x01, 0x02, 0x03, 0x05, 0x06, 0x07, 0x08, 0x20, 0x41, 0x60, 0x81, 0xFF} {
+				m := append([]byte{}, data...)
+				m[pos] = v
+				run(c15Step{Op: op, Hex: hexs(m)})
+				if v == 0xFF {
+					run(c15Step{Op: op, Hex: hexs(m)}, fails[pos%len(fails)])
+				}
+			}
+		}
+	}
+	return n
+}
+
 // value patterns
 func qCompValues(t byte) []string {
 	l := qCompLen[t]
@@ -456,7 +657,7 @@ func c15Run(c *core.Ctx) {
 			n++
 		}
 	}
-	simple := qFilter{ID: 1, Dir: 3, Comps: []qComp{{0x01, ""}}}
+	simple := qFilter{ID: 1, Dir: 3, Comps: []qComp{{Type: 0x01}}}
 	// rule header space: operation x DQR x segregation x QFI x precedence x filter counts 0..15
 	for op := uint8(1); op <= 6; op++ {
 		if !mine() {
@@ -491,7 +692,7 @@ func c15Run(c *core.Ctx) {
 			continue
 		}
 		for _, v1 := range qCompValues(t1) {
-			c1 := qComp{t1, v1}
+			c1 := qComp{Type: t1, Value: v1}
 			for _, dir := range []uint8{1, 2, 3} {
 				rules(qRule{ID: 9, Op: 1, Filters: []qFilter{{ID: 15, Dir: dir, Comps: []qComp{c1}}}, Precedence: 1, QFI: 1})
 			}
@@ -501,7 +702,7 @@ func c15Run(c *core.Ctx) {
 					vals = vals[len(vals)-1:]
 				}
 				for _, v2 := range vals {
-					c2 := qComp{t2, v2}
+					c2 := qComp{Type: t2, Value: v2}
 					rules(qRule{ID: 9, Op: 3, DQR: true, Filters: []qFilter{{ID: 0, Dir: 1, Comps: []qComp{c1, c2}}}, Precedence: 1, QFI: 1})
 					rules(qRule{ID: 9, Op: 4, Filters: []qFilter{{ID: 0, Dir: 1, Comps: []qComp{c1}}, {ID: 1, Dir: 2, Comps: []qComp{c2}}}, Precedence: 200, Seg: true, QFI: 63})
 					rules(qRule{ID: 9, Op: 1, Filters: []qFilter{{ID: 0, Dir: 1}, {ID: 1, Dir: 2, Comps: []qComp{c2, c1}}}, Precedence: 200, QFI: 9})
@@ -521,7 +722,7 @@ func c15Run(c *core.Ctx) {
 				for j := 0; j < m; j++ {
 					t := qCompTypes[(f+j)%len(qCompTypes)]
 					vs := qCompValues(t)
-					cs = append(cs, qComp{t, vs[(f+j)%len(vs)]})
+					cs = append(cs, qComp{Type: t, Value: vs[(f+j)%len(vs)]})
 				}
 				fs = append(fs, qFilter{ID: uint8(f), Dir: uint8(1 + f%3), Comps: cs})
 			}
@@ -614,7 +815,7 @@ func c15Run(c *core.Ctx) {
 	// mutation neighbourhood of valid encodings containing every component type and every parameter kind
 	var allComps []qComp
 	for _, t := range qCompTypes {
-		allComps = append(allComps, qComp{t, qCompValues(t)[len(qCompValues(t))-1]})
+		allComps = append(allComps, qComp{Type: t, Value: qCompValues(t)[len(qCompValues(t))-1]})
 	}
 	var allParams []qParam
 	for id := byte(1); id <= 7; id++ {
@@ -674,12 +875,15 @@ func c15Run(c *core.Ctx) {
 		}
 		_ = ci
 	}
+	n += c15Histories(c, corpus, mine)
 	c.Add("evaluations", n)
 	if c.Shard == 0 {
 		c.Sample("rules", 1, func() any {
-			return c15Rules{Rules: []qRule{{ID: 1, Op: 1, DQR: true, Filters: []qFilter{{ID: 1, Dir: 3, Comps: []qComp{{0x10, "0a000001ffffff00"}, {0x30, "11"}}}}, Precedence: 255, QFI: 9}}}
+			return c15Rules{Rules: []qRule{{ID: 1, Op: 1, DQR: true, Filters: []qFilter{{ID: 1, Dir: 3, Comps: []qComp{{Type: 0x10, Value: "0a000001ffffff00"}, {Type: 0x30, Value: "11"}}}}, Precedence: 255, QFI: 9}}}
 		})
-		c.Sample("descs", 1, func() any { return c15Descs{Descs: []qDesc{{QFI: 9, Op: 1, Params: []qParam{{1, "09"}, {2, "060400"}}}}} })
+		c.Sample("descs", 1, func() any {
+			return c15Descs{Descs: []qDesc{{QFI: 9, Op: 1, Params: []qParam{{1, "09"}, {2, "060400"}}}}}
+		})
 		c.Sample("raw", 1, func() any { return c15Raw{Parser: "descs", Hex: "0120410801"} })
 	}
 }
@@ -688,6 +892,7 @@ func init() {
 	core.RegisterKind("C15", "rules", c15RulesExec)
 	core.RegisterKind("C15", "descs", c15DescsExec)
 	core.RegisterKind("C15", "raw", c15RawExec)
+	core.RegisterKind("C15", "hist", c15HistExec)
 	core.RegisterProp(&core.PropSpec{
 		ID: "C15", Level: "exploration", Run: c15Run,
 		Shards: func(string) int { return 16 },
@@ -696,7 +901,7 @@ func init() {
 			if tier == "thorough" {
 				l = "5"
 			}
-			return "totality: every byte string of length <= " + l + " over a 32-value branch-constant alphabet (component types, parameter ids, small lengths, boundary octets) into QoSRules.UnmarshalBinary, QoSFlowDescs.UnmarshalBinary and the component-list parser, plus the <=2-mutation neighbourhood (every truncation, every single-octet replacement by all 256 values, deletions, insertions, pairs) of valid encodings containing every component type and parameter kind; round trip: rule lists over operations 1..6 x DQR x segregation x QFI {0,1,63} x precedence {0,255} x 0..15 filters, filters with 0..2 components over all ordered pairs of the 18 component types with value patterns, rich rules with 1..15 filters of 3/5/9/18 components alone and next to small rules, description lists over operations 1..3 x 0..63 parameters of each kind and all ordered pairs/triples of the 7 kinds. Oracle: no panic; unknown identifiers are errors; serialised bytes equal a reference encoder written from figures 9.11.4.12.x / 9.11.4.13.x; parse(serialise(v)) = v."
+			return "totality: every byte string of length <= " + l + " over a 32-value branch-constant alphabet (component types, parameter ids, small lengths, boundary octets) into QoSRules.UnmarshalBinary, QoSFlowDescs.UnmarshalBinary and the component-list parser, plus the <=2-mutation neighbourhood (every truncation, every single-octet replacement by all 256 values, deletions, insertions, pairs) of valid encodings containing every component type and parameter kind; round trip: rule lists over operations 1..6 x DQR x segregation x QFI {0,1,63} x precedence {0,255} x 0..15 filters, filters with 0..2 components over all ordered pairs of the 18 component types with value patterns, rich rules with 1..15 filters of 3/5/9/18 components alone and next to small rules, description lists over operations 1..3 x 0..63 parameters of each kind and all ordered pairs/triples of the 7 kinds. Histories: every ill-formed component kind (IPv6 address, short mask, over-large flow label, nil) at every position of 1..3 components in either filter, an unknown parameter at every position of 1..3 parameters, every truncation and a 13-value replacement at every position of the valid wire forms — alone, in ordered pairs and followed by a successful call — each followed by three probes (serialise and parse well-formed rule and description lists) whose results must not depend on the earlier calls. Serialiser hygiene on every round-trip case: the value is unchanged by MarshalBinary, a second MarshalBinary after the caller overwrote the first result gives the same octets, and the result survives serialising another value. Oracle: no panic; unknown identifiers are errors; serialised bytes equal a reference encoder written from figures 9.11.4.12.x / 9.11.4.13.x; parse(serialise(v)) = v."
 		},
 		Assumptions: []string{
 			"flow labels are generated below 2^19 (the serialiser rejects larger values although the field has 20 bits; the round trip presupposes a successful serialisation)",
